@@ -35,9 +35,13 @@ type C15Sc struct {
 	// (context.Background() with a deadline, say): no handler can reach the request's placeholder any more, stores
 	// through such a context fail, and reads through it see nothing, least of all another request's value
 	DetachMw bool `json:"detach_mw,omitempty"`
+	// StoreMw: a batch-item middleware stores the placeholder itself, before the rest of the chain (items whose script
+	// contains "mb") or after it has returned (items with "ma"), as a middleware that derives the value from the
+	// response would: a store made while an item is processed is a store, whoever makes it
+	StoreMw bool `json:"store_mw,omitempty"`
 }
 
-var c15Actions = []string{"pr", "pw", "pr,pw", "pw,pr", "pc", "pg", "pw,et", "pw,ps", "y2,pr", "pr,y2,pw,y1,pr", "pw,y3,pr", "y1,pg", "pc,pr", "pw,pc,pr", "ok", "et", "pz", "pw,pz,pr", "pz,pr", "px", "pw,px,pr", "nq", "pw,nq,pr", "nq,pr", "pr,nq,pw", "dx,pw", "dx,pr", "dx,pw,pr", "pw,dx,pr", "dx,pg", "dx,pz,pr", "pr,dx,pw", "pu", "pr,pu", "pw,pu", "pu,pr"}
+var c15Actions = []string{"pr", "pw", "pr,pw", "pw,pr", "pc", "pg", "pw,et", "pw,ps", "y2,pr", "pr,y2,pw,y1,pr", "pw,y3,pr", "y1,pg", "pc,pr", "pw,pc,pr", "ok", "et", "pz", "pw,pz,pr", "pz,pr", "px", "pw,px,pr", "nq", "pw,nq,pr", "nq,pr", "pr,nq,pw", "dx,pw", "dx,pr", "dx,pw,pr", "pw,dx,pr", "dx,pg", "dx,pz,pr", "pr,dx,pw", "pu", "pr,pu", "pw,pu", "pu,pr", "ma", "mb,pr", "pr,ma", "mb,pw,ma", "ma,et"}
 
 func genC15(g *simrt.Tape, tier string) any {
 	sc := &C15Sc{Direct: g.Draw(3) == 0}
@@ -79,6 +83,7 @@ func genC15(g *simrt.Tape, tier string) any {
 	sc.WrapMw = g.Draw(3) == 0
 	sc.SplitMw = g.Draw(4) == 0
 	sc.DetachMw = g.Draw(8) == 0
+	sc.StoreMw = !sc.DetachMw && g.Draw(3) == 0
 	return sc
 }
 
@@ -129,6 +134,9 @@ func checkPlaceholder(x *X, trace []hEvent, order map[string]int) {
 		switch ev.Kind {
 		case "set":
 			c.vals = map[string]bool{ev.Value: true}
+			if ev.Err {
+				c.vals[""] = true
+			}
 		case "clear":
 			c.vals = map[string]bool{"": true}
 		case "read", "get":
@@ -197,6 +205,34 @@ func execC15(x *X, scAny any) {
 		w.exec.BatchItemUse(func(next kmipserver.BatchItemNext, ctx context.Context, bi *kmip.RequestBatchItem) (*kmip.ResponseBatchItem, error) {
 			s.Fault("placeholder-through-detached-context")
 			return next(context.WithValue(context.Background(), detachedKey{}, true), bi)
+		})
+	}
+	if sc.StoreMw {
+		w.exec.BatchItemUse(func(next kmipserver.BatchItemNext, ctx context.Context, bi *kmip.RequestBatchItem) (*kmip.ResponseBatchItem, error) {
+			tok := itemToken(bi)
+			id := tokenID(tok)
+			store := func(itemFailed bool) {
+				w.setCount++
+				v := fmt.Sprintf("ph-%s-%d", id, w.setCount)
+				s.Fault("placeholder-stored-by-middleware")
+				kmipserver.SetIdPlaceholder(ctx, v)
+				// (a store on behalf of an item that failed: the statement does not say whether a failed item's
+				// value survives, see the "end" rule)
+				w.record(hEvent{Token: tok, ID: id, Kind: "set", Value: v, Err: itemFailed})
+			}
+			acts := tokenActions(tok)
+			for _, a := range acts {
+				if a == "mb" {
+					store(false)
+				}
+			}
+			r, err := next(ctx, bi)
+			for _, a := range acts {
+				if a == "ma" {
+					store(err != nil || r == nil || r.ResultStatus != kmip.ResultStatusSuccess)
+				}
+			}
+			return r, err
 		})
 	}
 	if sc.SplitMw {
@@ -347,6 +383,15 @@ func c15Floor(tier string) []*C15Sc {
 			out = append(out, &C15Sc{Direct: direct, DetachMw: true, Conns: []C15Conn{
 				{Reqs: []ReqSc{{Version: 4, Option: 1, Items: []ItemSc{{Tok: wr}, {Tok: "pr"}}}, {Version: 4, Items: []ItemSc{{Tok: "pr"}, {Tok: "pg"}}}}},
 				{Reqs: []ReqSc{{Version: 4, Items: []ItemSc{{Tok: "y2,pr"}, {Tok: "pg"}}}}},
+			}})
+		}
+	}
+	// a batch-item middleware that stores the placeholder before or after the rest of the chain, readers behind it
+	for _, direct := range []bool{true, false} {
+		for _, first := range []string{"ma", "mb", "mb,pr", "pw,ma", "ma,et", "mb,ps"} {
+			out = append(out, &C15Sc{Direct: direct, StoreMw: true, Conns: []C15Conn{
+				{Reqs: []ReqSc{{Version: 4, Option: 1, Items: []ItemSc{{Tok: first}, {Tok: "pr"}, {Tok: "pg"}, {Tok: "pr,ma"}, {Tok: "pr"}}}, {Version: 4, Items: []ItemSc{{Tok: "pr"}, {Tok: "mb,pr"}}}}},
+				{Reqs: []ReqSc{{Version: 4, Items: []ItemSc{{Tok: "y1,pr"}, {Tok: "pr"}}}}},
 			}})
 		}
 	}
